@@ -355,4 +355,21 @@ def c19(tier):
          'lomond.response.Response.__init__', 'lomond.parser.Parser.feed'])
 
 
-PROPS = {'C19': c19, 'C10': c10, 'C07': c07, 'C08': c08, 'C09': c09, 'C13': c13, 'C03': c03, 'C02': c02, 'C05': c05, 'C01': c01, 'C04': c04, 'C14': c14}
+def c17(tier):
+    q = tier == 'quick'
+    S = lambda name, what, **P: Spec(name, 'checks.reuse', 'run_reuse', dict(P, xval_stride=P.get('xval_stride', 41)), what=what)
+    base = ['eof', 'error', 'handshake-cut', 'rejected', 'connect-fail', 'close-pending', 'abandon']
+    specs = [
+        S('reuse-N1_%d-N2_%d' % ((3, 2) if q else (4, 3)),
+          'connection 1: %d symbolic bytes + solver-chosen abnormal ending %s; connection 2 on the same object: valid handshake + %d symbolic bytes; '
+          'compared with a fresh object fed the same bytes (events, payload terms, decoded written frames, request modulo key)'
+          % ((3, base, 2) if q else (4, base, 3)), N1=3 if q else 4, N2=2 if q else 3, endings=base),
+        S('reuse-text-split', 'connection 1 ends inside a text message (first frame text, 4 symbolic bytes: mid UTF-8 character / mid fragment); '
+          'connection 2: 3 symbolic bytes starting with a text frame', N1=4, N2=3, endings=['eof', 'error'], first1=[1]),
+    ]
+    return run_property('C17', tier, specs, 'model_checking', 'each connect() starts from a clean slate', ENV_ASSUMPTIONS + [
+        'reconnect chains longer than 2 follow by induction only if connection 2 leaves no more state than connection 1 could (stated, not proved)'],
+        LIFE_FUNCS + ['lomond.websocket.WebSocket.reset/State.__init__', 'lomond.session.WebsocketSession.__init__'])
+
+
+PROPS = {'C17': c17, 'C19': c19, 'C10': c10, 'C07': c07, 'C08': c08, 'C09': c09, 'C13': c13, 'C03': c03, 'C02': c02, 'C05': c05, 'C01': c01, 'C04': c04, 'C14': c14}
